@@ -191,6 +191,27 @@ def one_case(run, seed, idx, mods, tier=None):
     n = cImageD11.connectedpixels(img, lab, thr)
     if n != base[True][1] or not np.array_equal(lab, base[True][0]):
         V("connectedpixels:default-connectivity", "default call is not 8-connected")
+    # label images as callers may hold them (numpy's default int64, Fortran order, a window of a larger image): the
+    # wrapper either refuses them or the caller's own array carries the labels - never a silently filled temporary
+    if r.random() < 0.3 and mask.any():
+        for variant in ("int64", "fortran", "window", "int16"):
+            if variant == "int64":
+                lv = np.zeros(shape, np.int64)
+            elif variant == "int16":
+                lv = np.zeros(shape, np.int16)
+            elif variant == "fortran":
+                lv = np.asfortranarray(np.zeros(shape, np.int32))
+                if lv.flags.c_contiguous:
+                    continue
+            else:
+                lv = np.zeros((shape[0] + 2, shape[1] + 3), np.int32)[1:-1, 2:-1]
+            try:
+                nv = cImageD11.connectedpixels(img, lv, thr, 0, 1)
+            except Exception:
+                run.count("label_array_variants_refused")
+                continue
+            run.count("label_array_variants_accepted")
+            check_labels(run, V, "connectedpixels:label-array-" + variant, lv, nv, mask, True, refs[True])
     # labelimage.labelpeaks (8-connected, labels in lio.blim)
     if r.random() < 0.25:
         lio = labelimage.labelimage(shape, fileout=io.StringIO(), sptfile=io.StringIO())
